@@ -7,7 +7,7 @@ LEVEL = "other"
 H = "vf.contracts.c_table."
 T = "script.Table."
 FUNCTIONS = [T + "to_bytes", T + "parse_table_line", T + "transform_byte_matches_to_int", T + "add_lookup", T + "add_inverted_lookup", "a816.symbols.Scope.get_table",
-             "a816.parse.nodes.TextNode.binary_text", "a816.parse.nodes.AbstractTextNode.pc_after", "a816.parse.nodes.AbstractTextNode.emit"]
+             "a816.parse.nodes.TextNode.binary_text", "a816.parse.nodes.AbstractTextNode.pc_after", "a816.parse.nodes.AbstractTextNode.emit", "a816.parse.nodes.TableNode.__init__"]
 MIN_OBLIGATIONS = 40
 EXPLANATION = ("Table.to_bytes is executed symbolically on tables built by the real parse_table_line (single/multi-character texts, single/multi-byte "
                "codes, overlapping prefixes a/b/ab/abc) for EVERY text of length 0..5 (and escape-bearing texts up to 7) over the table alphabet, "
@@ -61,6 +61,19 @@ def shape_get_table(own, parent_kind):
     return sh
 
 
+def shape_table_node(cls, outer_has):
+    def sh(B):
+        res = S.resolver(B)
+        root = B.I.hget(B.st, res).fields["current_scope"]
+        ot = B.inst("script.Table", lookup=B.dict({}), inverted_lookup=B.dict({}), max_bytes_length=0, max_text_length=0) if outer_has else None
+        B.I.hmut(B.st, root).fields["table"] = ot
+        inner = S.scope(B, res, root, cls="a816.symbols." + cls, **({"name": "s"} if cls == "NamedScope" else {}))
+        B.I.hmut(B.st, B.I.hget(B.st, res).fields["scopes"]).items.append(inner)
+        B.I.hmut(B.st, res).fields["current_scope"] = inner
+        return {"resolver": res, "inner": inner, "outer": root, "outer_table": ot}
+    return sh
+
+
 def shape_text_node(B):
     res = S.resolver(B)
     lines, entries, alpha = TABLES["overlap"]
@@ -85,7 +98,11 @@ def cases(E):
     for own in (False, True):
         for pk in ("top-level", "has table", "no table"):
             cs.append(Case(H + "get_table_contract", f"own table={own}, enclosing chain {pk}", shape_get_table(own, pk), target=["a816.symbols.Scope.get_table"]))
-    cs.append(Case(H + "text_node_contract", "overlap table, every text of length 3", shape_text_node, target=FUNCTIONS[6:]))
+    cs.append(Case(H + "text_node_contract", "overlap table, every text of length 3", shape_text_node, target=FUNCTIONS[6:9]))
+    for cls in ("Scope", "InternalScope", "NamedScope"):
+        for outer_has in (True, False):
+            cs.append(Case(H + "table_node_contract", f".table inside a {cls}, enclosing scope {'has' if outer_has else 'has no'} table", shape_table_node(cls, outer_has),
+                           target=["a816.parse.nodes.TableNode.__init__"], overrides={"script.Table.__init__": "vf.specs.stubs.table_init_model"}))
     return cs
 
 
